@@ -98,6 +98,31 @@ def run(ctx: Ctx) -> None:
     pts = cb("points", lambda: [tok("POINTS", SStr.atom("kw", lower_is="points"), "pts"), np_, tok("_END", SStr.atom("kw", lower_is="end"), "ptsend")])
     pd = pts.get("__position__", {})
     ctx.check(pd.get("line") == lc("pts")[0] and pd.get("column") == lc("pts")[1], "Q2", "POINTS: keyword position", lt("process_pair_lists"), "", f"{dict(pd)!r}")
+    ctx.check(pd.get("values") == [lc("pa")], "Q2", "POINTS: value positions start at the first number of the first pair", lt("process_pair_lists"), "", f"the value positions recorded for POINTS a b END are {pd.get('values')!r}; the first number stands at {lc('pa')}")
+
+    # several POINTS blocks and several CONFIG lines inside one object: one position per block / per sub-key, in source order
+    def pts_block(tag):
+        npair = cb("num_pair", lambda: [cb("int", lambda: [tok("SIGNED_INT", SStr.atom(f"{tag}a", first=xform.DIGITS, last=xform.DIGITS, excludes=xform.NODELIM), f"{tag}a")]), cb("int", lambda: [tok("SIGNED_INT", SStr.atom(f"{tag}b", first=xform.DIGITS, last=xform.DIGITS, excludes=xform.NODELIM), f"{tag}b")])])
+        return cb("points", lambda: [tok("POINTS", SStr.atom("kw", lower_is="points"), tag), npair, tok("_END", SStr.atom("kw", lower_is="end"), f"{tag}end")])
+
+    for n_blocks in (1, 2, 3):
+        tags = [f"pt{i}" for i in range(n_blocks)]
+        feat = cb("composite", lambda tags=tags: [[tok("FEATURE", SStr.atom("kw", lower_is="feature"), "feat")], [pts_block(t_) for t_ in tags]])
+        pp_ = feat.get("__position__", {}).get("points")
+        got = [(x.get("line") if isinstance(x, dict) else x) for x in pp_] if isinstance(pp_, list) else ([pp_.get("line")] if isinstance(pp_, dict) else pp_)
+        shape_ok = (isinstance(pp_, dict) if n_blocks == 1 else isinstance(pp_, list) and all(isinstance(x, dict) for x in pp_))
+        ctx.check(shape_ok and got == [lc(t_)[0] for t_ in tags], "Q2", f"FEATURE with {n_blocks} POINTS block(s): one recorded position per block, in order", lt("composite"), "", f"a FEATURE with {n_blocks} POINTS block(s) at lines {[lc(t_)[0] for t_ in tags]} records the positions {pp_!r}")
+
+    def cfg_line(tag):
+        kt_ = tok("CONFIG", SStr.atom("kw", lower_is="config"), tag)
+        ks = cb("string", lambda: [tok("DOUBLE_QUOTED_STRING", SStr(['"', f"key_{tag}", '"']), f"{tag}k")])
+        vs = cb("string", lambda: [tok("DOUBLE_QUOTED_STRING", SStr(['"', Atom(f"v_{tag}", free=True), '"']), f"{tag}v")])
+        return cb("config", lambda: [kt_, ks, vs])
+
+    mp = cb("composite", lambda: [[tok("MAP", SStr.atom("kw", lower_is="map"), "map")], [cfg_line("c0"), cfg_line("c1")]])
+    cp = mp.get("__position__", {}).get("config")
+    good = isinstance(cp, dict) and {k_: (v_.get("line") if isinstance(v_, dict) else v_) for k_, v_ in cp.items()} == {"key_c0": lc("c0")[0], "key_c1": lc("c1")[0]}
+    ctx.check(good, "Q2", "MAP with two CONFIG lines: one recorded position per sub-key", lt("composite"), "", f"two CONFIG lines at lines {lc('c0')[0]} and {lc('c1')[0]} record the positions {cp!r}")
 
     # ---- Q3 ------------------------------------------------------------------------------------------
     ctx.rule("Q3", "value-rewriting callbacks keep the token's position; expression builders return their first operand's token", 10)
